@@ -124,7 +124,7 @@ def core_models(I, st, caller, func, args, argtys, dest_ty):
             return ret(st, Agg("array", None, bs))
         raise Unencodable("integer method %s::%s" % (ty, op))
     # ---- comparisons on primitives ----------------------------------------------------------
-    m = re.match(r"^<(%s|bool|char) as (PartialEq|PartialOrd|Ord)(?:<.*>)?>::(\w+)$" % INT, f)
+    m = re.match(r"^<&*(%s|bool|char) as (PartialEq|PartialOrd|Ord)(?:<.*>)?>::(\w+)$" % INT, f)
     if m:
         a = deref_all(I, st, args[0])
         b = deref_all(I, st, args[1])
@@ -200,7 +200,7 @@ def core_models(I, st, caller, func, args, argtys, dest_ty):
         return outs
     # ---- provided methods of PartialOrd on user types: defined through the type's own partial_cmp body
     m = re.match(r"^<(.*) as PartialOrd(<.*>)?>::(lt|le|gt|ge)$", f)
-    if m and norm_type(m.group(1)) not in INT_TYPES:
+    if m and norm_type(m.group(1)).lstrip("&") not in INT_TYPES:
         outs = []
         pc_f = "<%s as PartialOrd%s>::partial_cmp" % (m.group(1), m.group(2) or "")
         for o in I.dispatch_call(st, caller, pc_f, args, argtys, "Option<Ordering>"):
